@@ -7,15 +7,18 @@ TRANSLATED (tools/rs2v) into Gallina over the vocabulary of the hand model (Mode
   with their captured `*state` / `*utf8parser` and `return`s),
   <VtUtf8Receiver as utf8parse::Receiver>::{codepoint, invalid_sequence}, Utf8Parser::add,
   the four Iterator::next methods (StrippedStr, StripStrIter, StrippedBytes, StripBytesIter),
-  StrippedStr::new, StrippedBytes::new, strip_str, strip_bytes, StrippedBytes::into_vec,
+  StrippedStr::new, StrippedBytes::new, strip_str, strip_bytes, StrippedBytes::{into_vec, is_empty, extend},
+  StripStr::{new, strip_next}, StripBytes::{new, strip_next} (`new` = a derived Default: the derive attribute and the
+  field list are read from the source; `strip_next` returns a struct borrowing `&mut self.state`: the value translation
+  copies the state in, Proofs/StripGen.v writes the copy-out),
   and anstyle_parse::state::{state_change_, state_change} (again, as gs_*: C01 / C03 then depend
   on nothing else of Generated/ParserFn.v).
 Proofs/StripGen.v proves the translations equal to the hand model the theorems of C01 / C03
 are about.
 
 NOT translated, pinned by token hash (OPAQUE below, each with its reason):
-  from_utf8_unchecked, <StrippedStr as Display>::fmt, StrippedStr::to_string,
-  StripStr::strip_next, StripBytes::strip_next; definitions::unpack (transmute; as in gen_fn_parser.py).
+  from_utf8_unchecked, <StrippedStr as Display>::fmt, StrippedStr::to_string;
+  definitions::unpack (transmute; as in gen_fn_parser.py).
 `utf8parse::Parser::advance` is a third-party dependency: hand model Model/Utf8parse.v
 (u8_parser_advance); the call `self.utf8_parser.advance(&mut receiver, byte)` is translated as
 "run the hand model, then call the TRANSLATED receiver method the outcome names" (m_u8_advance)."""
@@ -26,6 +29,7 @@ sys.path.insert(0, os.path.dirname(os.path.abspath(__file__)))
 from rs2v.driver import translate, TranslateError, token_hash, fn_source   # noqa: E402
 from rs2v.emit import EmitError                                          # noqa: E402
 import gen_fn_parser as P                                                # noqa: E402
+from glue_common import make_f_default                                   # noqa: E402
 
 U8, USZ, BOOL = ("int", "u8"), ("int", "usize"), ("bool",)
 STATE, ACTION = ("enum", "State"), ("enum", "Action")
@@ -138,7 +142,16 @@ VOCAB = {
             "bytes": ("si_bytes", "set_si_bytes", BYTES),
             "state": ("si_state", "set_si_state", STATE),
         }},
-        "StripStrIter": {"coq": "str_iter_st", "var": "it", "fields": {
+        # pub struct StripStr { state: State }  ==  the state itself
+        "StripStr": {"coq": "state", "var": "ss", "ctor": ("sstr_mk", ["state"]), "fields": {
+            "state": ("sstr_state", "set_sstr_state", STATE),
+        }},
+        # pub struct StripBytes { state: State, utf8parser: Utf8Parser }
+        "StripBytes": {"coq": "strip_bytes_st", "var": "sb", "ctor": ("mkStripBytesSt", ["state", "utf8parser"]), "fields": {
+            "state": ("sbs_state", "set_sbs_state", STATE),
+            "utf8parser": ("sbs_utf8", "set_sbs_utf8", U8P),
+        }},
+        "StripStrIter": {"coq": "str_iter_st", "var": "it", "ctor": ("mkStrIt", ["bytes", "state"]), "fields": {
             "bytes": ("si_bytes", "set_si_bytes", BYTES),
             "state": ("si_state", "set_si_state", STATE),
         }},
@@ -147,7 +160,7 @@ VOCAB = {
             "state": ("bi_state", "set_bi_state", STATE),
             "utf8parser": ("bi_utf8", "set_bi_utf8", U8P),
         }},
-        "StripBytesIter": {"coq": "bytes_iter_st", "var": "it", "fields": {
+        "StripBytesIter": {"coq": "bytes_iter_st", "var": "it", "ctor": ("mkBytesIt", ["bytes", "state", "utf8parser"]), "fields": {
             "bytes": ("bi_bytes", "set_bi_bytes", BYTES),
             "state": ("bi_state", "set_bi_state", STATE),
             "utf8parser": ("bi_utf8", "set_bi_utf8", U8P),
@@ -162,6 +175,9 @@ VOCAB = {
         "from_utf8_unchecked": f_from_utf8_unchecked,
         "VtUtf8Receiver": f_receiver_new,
         "Vec::with_capacity": f_vec_with_capacity,
+        # `Default::default()` as the value of `fn new() -> Self` of a struct that derives Default: every field's default
+        # (the derive attribute and the field list are read from the source, tools/glue_common.py)
+        "Default::default": make_f_default({repr(STATE): "Ground", repr(U8P): "u8_new"}),
     },
     "methods": {
         ("coq", "advance"): m_u8_advance,
@@ -193,11 +209,6 @@ OPAQUE = {
     # concatenate" (Model/Strip.v str_iter / strip_str_model; Proofs/StripGen.v g_str_drain)
     "StrippedStr::fmt": "2959344bfda9d87b",
     "StrippedStr::to_string": "e454a0d8509b6f5f",
-    # return a struct that holds `&mut self.state` (/ `&mut self.utf8parser`): an aliasing borrow the value
-    # translation cannot express; modelled by hand as copy-in / copy-out around the drain
-    # (Model/Strip.v strip_*_chunks; Proofs/StripGen.v g_str_chunks / g_bytes_chunks)
-    "StripStr::strip_next": "041b5df400174d76",
-    "StripBytes::strip_next": "a45ddaf0bfd06852",
 }
 
 TARGETS = [
@@ -217,6 +228,15 @@ TARGETS = [
     ("next", "StrippedBytes", "g_stripped_bytes_next", {"trait": "Iterator"}),
     ("next", "StripBytesIter", "g_strip_bytes_iter_next", {"trait": "Iterator"}),
     ("into_vec", "StrippedBytes", "g_stripped_bytes_into_vec", {}),
+    ("is_empty", "StrippedBytes", "g_stripped_bytes_is_empty", {}),
+    ("extend", "StrippedBytes", "g_stripped_bytes_extend", {}),
+    ("new", "StripStr", "g_strip_str_new", {}),
+    # strip_next returns a struct that borrows `&mut self.state`: the VALUE translation copies the current state into the
+    # iterator (which field goes where is translated); that the drained iterator's state IS the StripStr's afterwards (the
+    # copy-out the borrow means) is written out in Proofs/StripGen.v (gt_str_chunks / gt_bytes_chunks)
+    ("strip_next", "StripStr", "g_strip_str_strip_next", {}),
+    ("new", "StripBytes", "g_strip_bytes_new", {}),
+    ("strip_next", "StripBytes", "g_strip_bytes_strip_next", {}),
 ]
 
 
@@ -238,6 +258,13 @@ def register(generators, gm):
             h = token_hash(fn_source(defs, "unpack"))
             if h != P.PIN_UNPACK:
                 raise TranslateError("definitions::unpack changed (token hash %s, pinned %s): it is modelled by hand (transmute)" % (h, P.PIN_UNPACK))
+            # the defaults the vocabulary names: `#[default] Ground` of `enum State`, `#[derive(Default)]` of Utf8Parser
+            # (whose one field is utf8parse's decoder: u8_new)
+            import re
+            if not re.search(r"#\[default\]\s*Ground\b", defs) or len(re.findall(r"#\[default\]", defs.split("pub enum Action")[0])) != 1:
+                raise TranslateError("definitions.rs: `#[default] Ground` of enum State not found (the vocabulary's default of State)")
+            if not re.search(r"#\[derive\(Default\b[^\]]*\)\]\s*pub\(crate\)\s+struct\s+Utf8Parser\b", src):
+                raise TranslateError("strip.rs: Utf8Parser no longer derives Default (the vocabulary's default of Utf8Parser)")
             v = dict(VOCAB)
             v["opaque"] = OPAQUE
             out.append(translate(src, v, TARGETS, "", "", shapes))
